@@ -18,11 +18,20 @@ VEC vec;
 #define POISON 0x5A5A5A5Au
 #define NBLK 8
 static u8 tok_alloc, tok_ctor, tok_tbb;     /* exception type tokens: allocator's bad_alloc, user constructor, r1::throw_exception */
+/* exceptions are thrown from static objects (header {type, refcount} + payload, like rt/vp.h's heap objects): the pending
+   pointer vp_exc is then an address cbmc's symex folds against null, so only the real path after a throw is executed
+   (with a malloc'ed object both outcomes of every `if (vp_exc)` were explored: path explosion) */
+static u64 exc_obj[8][4]; static unsigned n_thrown;
+static void throw_static(u8* ti) {
+  VP_ASSERT(n_thrown < 8, "HARNESS: too many throws"); __CPROVER_assume(n_thrown < 8);
+  u8* p = (u8*)&exc_obj[n_thrown++][2];
+  VP_EXC_TYPE(p) = ti; VP_EXC_REFS(p) = 1; vp_exc = p; vp_exc_thrown++;
+}
 static int armed, fault_kind; static unsigned fault_at, n_allocs, n_ctors, n_faults, n_tbb_throws;
 /* ---- allocator stub: bump allocation from one static typed pool; fresh blocks are poisoned; ghost bookkeeping of requested sizes */
 static ELEM epool[PAD + CAP]; static unsigned e_used, n_eb; static unsigned eb_off[NBLK]; static u64 eb_req[NBLK]; static u8 eb_freed[NBLK];
 static int alloc_fails(void) {
-  if (armed && fault_kind == 0) { n_allocs++; if (n_allocs == fault_at) { n_faults++; vp_throw_user(&tok_alloc); return 1; } }
+  if (armed && fault_kind == 0) { n_allocs++; if (n_allocs == fault_at) { n_faults++; throw_static(&tok_alloc); return 1; } }
   return 0;
 }
 u8* vp_alloc_elem(u64 n) {
@@ -62,7 +71,7 @@ void vp_dealloc_tab(u8* p, u64 n) { VP_ASSERT(tb_used && !tb_freed && p == (u8*)
 static u8* log_addr[MAXLOG]; static u32 log_val[MAXLOG]; static unsigned n_log, d_count[MAXLOG]; static int destroying;
 void vp_construct(u8* a, u32 val) {
   VP_ASSERT(in_live(a), "element constructed outside the storage handed out by the allocator");
-  if (armed && fault_kind == 1) { n_ctors++; if (n_ctors == fault_at) { n_faults++; vp_throw_user(&tok_ctor); return; } }
+  if (armed && fault_kind == 1) { n_ctors++; if (n_ctors == fault_at) { n_faults++; throw_static(&tok_ctor); return; } }
   VP_ASSERT(n_log < MAXLOG, "HARNESS: construction log too small"); __CPROVER_assume(n_log < MAXLOG);
   log_addr[n_log] = a; log_val[n_log] = val; n_log++;
 }
@@ -78,7 +87,7 @@ void vp_destroyed(u8* a, u32 state) {
   VP_ASSERT(found, "destructor run on an element the harness never saw constructed");
 }
 /* ---- real-code externals */
-void _ZN3tbb6detail2r115throw_exceptionENS0_2d012exception_idE(u32 id) { n_tbb_throws++; vp_throw_user(&tok_tbb); }   /* contract: throws */
+void _ZN3tbb6detail2r115throw_exceptionENS0_2d012exception_idE(u32 id) { n_tbb_throws++; throw_static(&tok_tbb); }   /* contract: throws */
 /* cut tbb::detail::d0::atomic_backoff::pause(): with a single thread any busy-wait iteration means waiting for somebody who does not exist */
 void _ZN3tbb6detail2d014atomic_backoff5pauseEv(struct S_class_tbb__detail__d0__atomic_backoff* self) {
   VP_ASSERT(0, "fault: growth call waits forever for a segment that an earlier failed call left unallocated");
